@@ -1,12 +1,14 @@
 SPECIFICATION Spec
 CONSTANTS
   Calls = {1, 2, 3}
-  Hashes <- ModelHashes
-  MaxLanes = 2
-  Kinds = {"line", "mline", "runq", "pchan"}
-  LaneCounts = {1, 2}
-  QSizes = {0, 1}
+  Hashes <- ModelHashes2
+  MaxLanes = 1
+  Kinds = {"line", "pchan"}
+  LaneCounts = {1}
+  QSizes = {1}
   HashBits = 3
+  Fails = {FALSE}
+  Pres = {FALSE}
   FixSlot = TRUE
   FixPcAdd = TRUE
   FixPopAnyway = TRUE
